@@ -53,7 +53,7 @@ CLAIMED = {
              'declared variable; get_conn_idx returns the edge list of that matrix. AUXILIARY (concrete): interference between problems '
              '(settings B after A in one cache, manager A while B is alive, encoder object of A serving B).',
         note='Two known findings (D3 lazy encoders, D4 partitioning pattern with one valid matrix). Trusted: z3 (LIA), spec/conn.py (decided against the real enumerator under C09), symx (native replay per path). '
-             'Bounds: <= 6 declared variables, <= 20000 paths per instance, settings <= 3x3; the quick tier defers instances '
+             'Bounds: <= 6 declared variables, <= 20000 paths per instance, settings <= 3x3 (plus one 2x4 and one 4x4 settings for the pattern encoders); the quick tier defers instances '
              'with more than ~2500 estimated paths to the thorough tier (listed in the evidence). Constraint-violation '
              'imputers: "valid matrix or the documented all(-1) marker", onto-ness not demanded.',
         technique=TECH+'symbolic design vectors of unbounded integers through every registered encoder/imputer; onto-ness '
